@@ -472,8 +472,8 @@ func ruleCapturedWrite(c *Ctx) {
 		}
 	}
 	c.R.Hold("R-GUARD/captured", "-", "", "go statements with a literal examined", fmt.Sprintf("%d go statements, %d captured variables assigned in them", nGo, n), false)
-	if nGo < 10 {
-		c.R.Undecided("R-GUARD/captured", "", "instance-floor", fmt.Sprintf("only %d go statements with a function literal found, more than 10 were counted by hand", nGo))
+	if nGo < 5 {
+		c.R.Undecided("R-GUARD/captured", "", "instance-floor", fmt.Sprintf("only %d go statements with a function literal found, 10 were counted on the reference tree", nGo))
 	}
 }
 
